@@ -1516,8 +1516,6 @@ private:
     return x_out;
   }
 
-  // FIXME HACK: big assumption that Wt can be casted to float. This
-  // is true if Wt is long but not if, for instance, we use bignums.
   void integer_tightening() {
 #ifdef INTEGER_TIGHTENING
     for (vert_id v : m_graph.verts()) {
@@ -1528,7 +1526,9 @@ private:
                                                  << " --> " << v + 1 << " from "
                                                  << w.get() << " to ";);
 	// REVISIT(PERFORMANCE): extra call to lookup
-	Wt tightened_w = 2 * (Wt)std::floor((float)w.get() / 2);
+	// w is odd: 2*floor(w/2) = w-1 (computed on Wt, a float has
+	// only 24 bits of mantissa)
+	Wt tightened_w = w.get() - (Wt)1;
 	m_graph.set_edge(v, tightened_w, v + 1);
         CRAB_LOG("octagon-integer", crab::outs() << tightened_w << "\n";);
       }
@@ -1538,7 +1538,9 @@ private:
                                                  << " --> " << v + 1 << " from "
                                                  << w.get() << " to ";);
 	// REVISIT(PERFORMANCE): extra call to lookup
-	Wt tightened_w = 2 * (Wt)std::floor((float)w.get() / 2);
+	// w is odd: 2*floor(w/2) = w-1 (computed on Wt, a float has
+	// only 24 bits of mantissa)
+	Wt tightened_w = w.get() - (Wt)1;
 	m_graph.set_edge(v, tightened_w, v - 1);
         CRAB_LOG("octagon-integer", crab::outs() << tightened_w << "\n";);
       }
